@@ -144,6 +144,9 @@ class Module:
             self.tree = ast.parse(self.source, filename=path)
         except SyntaxError as exc:
             raise AnalysisError("cannot parse %s: %s" % (path, exc))
+        if not os.environ.get("NGS_NO_CANON"):
+            from .canon import canonicalise
+            canonicalise(self.tree)
         self.functions = {}
         self.classes = {}
         self.imports = {}     # local alias -> dotted target
@@ -255,8 +258,15 @@ class Repo:
     def func(self, short, qualname, inline=False):
         m = self.module(short)
         if qualname not in m.functions:
-            raise AnalysisError("anchor vanished: function %s in %s"
-                                % (qualname, m.relpath))
+            # moved to another module of the package (and usually re-imported
+            # here): follow it if the new home is unambiguous
+            homes = [mm for mm in self.modules.values()
+                     if qualname in mm.functions]
+            if len(homes) != 1:
+                raise AnalysisError("anchor vanished: function %s in %s"
+                                    % (qualname, m.relpath))
+            m = homes[0]
+            self.consulted.add(m.name)
         f = m.functions[qualname]
         if inline:
             cache = self.__dict__.setdefault("_inline_cache", {})
@@ -272,8 +282,12 @@ class Repo:
     def cls(self, short, name):
         m = self.module(short)
         if name not in m.classes:
-            raise AnalysisError("anchor vanished: class %s in %s"
-                                % (name, m.relpath))
+            homes = [mm for mm in self.modules.values() if name in mm.classes]
+            if len(homes) != 1:
+                raise AnalysisError("anchor vanished: class %s in %s"
+                                    % (name, m.relpath))
+            m = homes[0]
+            self.consulted.add(m.name)
         return m.classes[name]
 
     def all_functions(self):
@@ -763,12 +777,26 @@ def helper_closure(fn, depth=2):
         for f in frontier:
             for c in calls_in(f.node):
                 callee = resolve_local_call(f, c)
+                if callee is None:
+                    callee = _partial_target(f, c)
                 if callee is not None and callee.key not in seen:
                     seen.add(callee.key)
                     out.append(callee)
                     nxt.append(callee)
         frontier = nxt
     return out
+
+
+def _partial_target(fn, call):
+    """`functools.partial(f, ...)` (or partial(f, ...)): the local function f
+    (for reachability only - arguments are bound differently, so the inliners
+    never use this)."""
+    nm = dotted(call.func) or ""
+    if nm.split(".")[-1] == "partial" and call.args and \
+            isinstance(call.args[0], (ast.Name, ast.Attribute)):
+        fake = ast.Call(func=call.args[0], args=[], keywords=[])
+        return resolve_local_call(fn, fake)
+    return None
 
 
 def resolve_local_call(fn, call):
@@ -787,7 +815,19 @@ def resolve_local_call(fn, call):
             if cand is not None:
                 return cand
             g = g.parent
-        return m.functions.get(f.id)
+        if f.id in m.functions:
+            return m.functions[f.id]
+        # a private helper imported from another module of the package
+        # (shared by two modules after a de-duplication)
+        tgt = m.imports.get(f.id)
+        if tgt and tgt.startswith(PKG + ".") and \
+                tgt.rsplit(".", 1)[1].startswith("_"):
+            modname, fname = tgt.rsplit(".", 1)
+            om = m.repo.modules.get(modname)
+            if om is not None and fname in om.functions:
+                m.repo.consulted.add(modname)
+                return om.functions[fname]
+        return None
     return None
 
 
@@ -1049,7 +1089,11 @@ class _ConstSubst(ast.NodeTransformer):
 def cnorm(module, node):
     """norm() with the module's simple literal constants substituted for
     their names (`_GZ_SUFFIX` -> '.gz')."""
-    tab = _const_table(module)
+    from .canon import PROTECTED
+    if not os.environ.get("NGS_NO_CANON"):
+        return norm(node)       # already substituted when the module loaded
+    tab = {k: v for k, v in _const_table(module).items()
+           if k not in PROTECTED}
     if not tab:
         return norm(node)
     new = _ConstSubst(tab).visit(_copy.deepcopy(node))
@@ -1079,3 +1123,63 @@ def closure_text(fn, depth=2):
     templates: the construct may live in an extracted helper)."""
     base = getattr(fn, "inlined_from", fn)
     return "\n#helper#\n".join(ftext(h) for h in helper_closure(base, depth))
+
+
+def returned_closure(outer):
+    """The nested function that `outer` returns (`def inner(...)` ...
+    `return inner`), or None when it returns something else (a callable
+    object, a functools.partial, ...)."""
+    found = None
+    for st in stmts_of(outer.node):
+        if isinstance(st, ast.Return) and isinstance(st.value, ast.Name):
+            cand = outer.module.functions.get(outer.qualname + "." +
+                                              st.value.id)
+            if cand is None:
+                return None
+            if found is not None and cand is not found:
+                return None
+            found = cand
+        elif isinstance(st, ast.Return) and st.value is not None:
+            return None
+    return found
+
+
+def ordered_calls(stmts):
+    """Calls of a statement list in execution-like source order: statement by
+    statement, headers before bodies, by position inside a simple
+    statement."""
+    out = []
+    for st in stmts:
+        if isinstance(st, (ast.FunctionDef, ast.AsyncFunctionDef,
+                           ast.ClassDef)):
+            continue
+        kids = list(iter_child_stmts(st))
+        if not kids:
+            out += sorted(calls_in(st), key=lambda c: (c.lineno, c.col_offset))
+            continue
+        hdr = []
+        for field, value in ast.iter_fields(st):
+            if field in ("body", "orelse", "finalbody", "handlers", "cases"):
+                continue
+            for sub in (value if isinstance(value, list) else [value]):
+                if isinstance(sub, ast.AST):
+                    hdr += calls_in(sub)
+        out += sorted(hdr, key=lambda c: (c.lineno, c.col_offset))
+        out += ordered_calls(kids)
+    return out
+
+
+def calls_through_helpers(fn, depth=2):
+    """[(call, owner function)] in execution-like order, descending into
+    local helpers at their call sites (each helper expanded where called)."""
+    out = []
+
+    def walk(f, level, stack):
+        for c in ordered_calls(f.node.body):
+            h = resolve_local_call(f, c)
+            if h is not None and h.key not in stack and level > 0:
+                walk(h, level - 1, stack | {h.key})
+            else:
+                out.append((c, f))
+    walk(fn, depth, {fn.key})
+    return out
